@@ -284,6 +284,14 @@ func c12(args []string) int {
 		nadd := 0
 		var lastDomains []string
 		var rexisting []string // router names that have been added so far
+		// the first histories of every run are SCRIPTED: repeated AddRoute / RemoveAllRoutes with equal fast-index keys
+		var scriptedReqs []reqT
+		const nScripted = 12
+		if hi < nScripted {
+			ops, scriptedReqs, allRoutes, lastDomains = scriptedRouteHistory(hi, r, rnames[0], unknown)
+			nops = 0
+			run.Sum.Distribution["scripted-history:add-route-equal-index-key"]++
+		}
 		// the generator's own bookkeeping of which clusters exist and which addresses they hold (only used to aim operations)
 		exists := map[string]bool{}
 		present := map[string]map[string]bool{cnames[0]: {}, cnames[1]: {}, unknown: {}, "": {}}
@@ -463,11 +471,12 @@ func c12(args []string) int {
 
 		// ---- the request battery of this history
 		battery := make([]reqT, 0, 12)
+		battery = append(battery, scriptedReqs...)
 		for k := 0; k < 5; k++ {
 			battery = append(battery, g.request())
 		}
 		for _, d := range lastDomains {
-			if len(battery) >= 9 {
+			if len(battery) >= 9+len(scriptedReqs) {
 				break
 			}
 			if r.Pct(40) {
@@ -961,4 +970,81 @@ func compareClusterWithDump(run *Run, name string, rep interface{}) {
 		}
 		run.Fail(sig, fmt.Sprintf("cluster %s: live %s %s, built from the dumped configuration %s %s", name, lb, hostsString(hosts), flb, hostsString(fh)), rep)
 	}
+}
+
+// scriptedRouteHistory: a deterministic family (variant = n % 6, values drawn from r) of histories in which AddRoute is
+// called several times with routes that have the SAME fast-index key (one exact header, equal name and value) but
+// different paths / clusters, interleaved with RemoveAllRoutes, on an exact-domain virtual host and on the default one
+// (reached through a domain no virtual host has).  Every added route must be APPENDED to the live route list exactly as
+// it is appended to the stored configuration.  The returned requests carry the headers and paths that tell the added
+// routes apart.
+func scriptedRouteHistory(n int, r *Rng, name, unknown string) (ops []opT, reqs []reqT, all []rtT, domains []string) {
+	key := r.PickS([]string{"service", "k1", "x-env"})
+	val := r.PickS([]string{"svcA", "v1", "gray"})
+	other := val + "-other"
+	mk := func(cluster, prefix string, v string, method bool) rtT {
+		rt := rtT{Cluster: cluster, Prefix: prefix, Headers: []hmT{{Name: key, Value: v}}}
+		if method {
+			rt.Headers = append(rt.Headers, hmT{Name: "method", Value: "GET"})
+		}
+		return rt
+	}
+	c := cfgT{
+		{Name: "vh0", Domains: []string{"svc.test"}, Routes: []rtT{mk("v0r0", "", val, false)}},
+		{Name: "vh1", Domains: []string{"*"}, Routes: []rtT{mk("v1r0", "/a", val, false), mk("v1r1", "/", other, false)}},
+	}
+	domains = []string{"svc.test", "*"}
+	ops = append(ops, opT{Kind: "routers", Name: name, Config: c})
+	for _, vh := range c {
+		all = append(all, vh.Routes...)
+	}
+	nadd := 0
+	add := func(domain, prefix, v string, method bool) {
+		rt := mk(fmt.Sprintf("add%d", nadd), prefix, v, method)
+		nadd++
+		all = append(all, rt)
+		ops = append(ops, opT{Kind: "add-route", Name: name, Domain: domain, Route: &rt})
+	}
+	remove := func(domain string) { ops = append(ops, opT{Kind: "remove-routes", Name: name, Domain: domain}) }
+	switch n % 6 {
+	case 0: // the same rpc key twice on the exact-domain virtual host
+		add("svc.test", "", val, false)
+		add("svc.test", "", val, false)
+	case 1: // twice on the default virtual host, reached through an unknown domain; different prefixes
+		add("nowhere.invalid", "/a/b", val, false)
+		add("nowhere.invalid", "/", val, false)
+	case 2: // after a removal: the first addition creates the index entry, the second has the same key
+		remove("svc.test")
+		add("svc.test", "/x", val, false)
+		add("svc.test", "/", val, false)
+	case 3: // three times, with a method matcher beside the indexed header
+		add("svc.test", "/a", val, true)
+		add("svc.test", "/", val, true)
+		add("svc.test", "", val, false)
+	case 4: // another value between two equal ones
+		add("svc.test", "/a", val, false)
+		add("svc.test", "/", other, false)
+		add("svc.test", "/", val, false)
+	default: // add, remove, add, add, remove, add
+		add("svc.test", "/a", val, false)
+		remove("svc.test")
+		add("svc.test", "/a/b", val, false)
+		add("svc.test", "/", val, false)
+		remove("nowhere.invalid")
+		add("nowhere.invalid", "/", val, false)
+		add("nowhere.invalid", "/a", val, false)
+	}
+	if r.Bool() { // the same on a router name that does not exist: nothing happens
+		rt := mk("ghost", "/", val, false)
+		all = append(all, rt)
+		ops = append(ops, opT{Kind: "add-route", Name: unknown, Domain: "svc.test", Route: &rt})
+	}
+	for _, host := range []string{"svc.test", "SVC.test", "other.org"} {
+		for _, path := range []string{"/a/b", "/x/y", "/"} {
+			for _, v := range []string{val, other} {
+				reqs = append(reqs, reqT{Vars: map[string]string{types.VarHost: host, types.VarPath: path, types.VarMethod: "GET"}, Hdr: map[string]string{key: v}})
+			}
+		}
+	}
+	return
 }
